@@ -51,6 +51,16 @@ func c10Scenarios(tier string) []*Scenario {
 			}
 		}
 	}
+	// a Ready (or Not Ready) process that exits by itself and is relaunched by its policy: readiness must be forgotten
+	for _, pol := range []string{"always", "on_failure"} {
+		for _, ans := range [][]string{{"ok"}, {"fail", "ok"}, {"ok", "ok", "fail"}} {
+			sc := c10Scenario(3, pol, 0, ans, "none", false)
+			sc.ID += "-selfexit"
+			sc.Procs["a"] = &ProcScript{Launches: [][]Action{{Exit(1)}, {}}}
+			sc.TickBudget = 3
+			scs = append(scs, sc)
+		}
+	}
 	// daemon with a liveness probe
 	for _, pol := range policies {
 		for _, ans := range [][]string{{"ok", "fail", "fail"}, {"fail", "fail"}, {"ok", "ok", "fail", "ok", "fail", "fail"}} {
